@@ -535,6 +535,8 @@ class Ctx:
                     ('python -W error', {}, ['-W', 'error'], None),
                     ('PYTHONINTMAXSTRDIGITS=640', {'PYTHONINTMAXSTRDIGITS': '640'}, [], None),
                     ('os.linesep = CRLF before the library is imported (another platform)', {'VERIF_PROBE_LINESEP': 'crlf'}, [], None),
+                    ('debug logging turned on for every logger', {'VERIF_PROBE_LOGGING': 'debug'}, [], None),
+                    ('four threads asking at once', {'VERIF_PROBE_THREADS': '4'}, [], None),
                     ('LC_ALL=C without UTF-8 mode', {'LC_ALL': 'C', 'LANG': 'C', 'PYTHONUTF8': '0', 'PYTHONCOERCECLOCALE': '0', 'PYTHONIOENCODING': ''}, [], None),
                     ('working directory / and TZ=Pacific/Kiritimati', {'TZ': 'Pacific/Kiritimati'}, [], '/')]
         st['variants'] = [v[0] for v in variants]
